@@ -32,11 +32,7 @@ M = rules_c12.M
 UM = rules_c12.UM
 
 
-def check(ctx):
-    from . import rules_c10
-    rules_c10.check_linear_impls(rules_c12._Only(ctx, {"R10.6": "R11.6"}))
-    rules_c12.check_with_rate(ctx, "R11.1", None)
-    rules_c12.check_one_over_length(ctx, "R11.2", None)
+def umad_shape_legacy(ctx):
     f, main, empty = rules_c12.umad_closure(ctx)
     at = f.at()
     ps = return_paths(ctx.paths(f))
@@ -63,10 +59,6 @@ def check(ctx):
             good = good and ok
         ctx.check(good, "R11.3", "Umad/closure-returns-[old?,new?]-in-order", "; ".join(short(q.ret, 4) for q in cps), at,
                   bad_detail="per parent gene the closure must return [old: Option(parent gene), new: Option(new_gene())] in that order; extracted " + "; ".join(short(q.ret, 6) for q in cps))
-    g = ctx.fn("ec_linear::mutator::umad::Umad::<GeneGenerator>::new_gene")
-    psn = return_paths(ctx.paths(g))
-    ctx.check(len(psn) == 1 and match(psn[0].ret, Call("Distribution::sample", lambda a: derives_from_self(a, field="gene_generator"), lambda a: rng_passthrough(a, 2), nargs=2)) and len(psn[0].calls()) == 1,
-              "R11.3", "Umad::new_gene=gene_generator.sample(rng)", short(psn[0].ret), g.at())
     emp = [p for p in empty if not is_err_return(p)]
     if len(emp) == 2 and rules_c12.umad_empty_branch_explicit(ctx, emp):
         ctx.ok("R11.3", "Umad/empty-parent-yields-at-most-one-new-gene", "if random_bool(..) { Some(new_gene) } else { None }, collected: at most one gene, from new_gene", at)
@@ -85,6 +77,33 @@ def check(ctx):
     disabled = [p for p, _ in main if any(c[0][0] == "discr" and self_field(c[0][1], "empty_addition_rate") and c[1] != 1 for c in p.conds)]
     ctx.check(len(disabled) >= 1, "R11.3", "Umad/disabled-empty-addition-falls-through-to-main-pass", "%d path(s)" % len(disabled), at)
 
+
+
+def umad_shape_canonical(ctx):
+    """the same clauses read from canonical paths (rules_c12.umad_semantics): whatever the spelling of the pipeline, of the
+    per-gene value ([old, new] flattened, old.into_iter().chain(new), a helper returning the pair) and of the empty-parent branch"""
+    V = rules_c12.umad_semantics(ctx)
+    at = V["f"].at()
+    why = "; ".join(V["detail"])[:600]
+    ctx.check(V["shape"] and V["n_main"] >= 1, "R11.3", "Umad/main-pass=into_iter.flat_map.flatten.collect", "%d main-pass paths, %d empty-branch paths" % (V["n_main"], V["n_empty"]), at, bad_detail=why)
+    ctx.check(V["shape"], "R11.3", "Umad/main-pass-no-other-adaptor", "only size/into_iter/flat_map/flatten/collect on the main path", at, bad_detail=why)
+    ctx.check(V["order"] and V["wiring"], "R11.3", "Umad/closure-returns-[old?,new?]-in-order", "per parent gene: the parent's gene (if kept) then at most one new gene", at, bad_detail=why)
+    ctx.check(V["empty"] and V["n_empty"] >= 1, "R11.3", "Umad/empty-parent-yields-at-most-one-new-gene", "one new gene or none, under size()==0 && empty rate configured", at, bad_detail=why)
+    ctx.floor("R11.3", V["n_empty"], 1, "empty-parent branch")
+    ctx.check(V["disabled"], "R11.3", "Umad/disabled-empty-addition-falls-through-to-main-pass", "main pass taken when no empty-addition rate is configured", at, bad_detail=why)
+
+
+def check(ctx):
+    from . import rules_c10
+    rules_c10.check_linear_impls(rules_c12._Only(ctx, {"R10.6": "R11.6"}))
+    rules_c12.check_with_rate(ctx, "R11.1", None)
+    rules_c12.check_one_over_length(ctx, "R11.2", None)
+    from . import ckit as K
+    K.either(ctx, umad_shape_legacy, umad_shape_canonical)
+    g = ctx.fn("ec_linear::mutator::umad::Umad::<GeneGenerator>::new_gene")
+    psn = return_paths(ctx.paths(g))
+    ctx.check(len(psn) == 1 and match(psn[0].ret, Call("Distribution::sample", lambda a: derives_from_self(a, field="gene_generator"), lambda a: rng_passthrough(a, 2), nargs=2)) and len(psn[0].calls()) == 1,
+              "R11.3", "Umad::new_gene=gene_generator.sample(rng)", short(psn[0].ret), g.at())
     # ---- R11.5: the degenerate-rate corollaries (rate 0 = identity, flip rate >= 1 flips all, deletion 1 = empty,
     # addition 1 & deletion 0 = one new gene after each) rest on the draw wiring: re-evaluated here (rules shared with C12)
     sub = rules_c12._Only(ctx, {"R12.1": "R11.5", "R12.3": "R11.5"})
@@ -100,7 +119,7 @@ def check(ctx):
         {"fn": "umad::Umad<GeneGenerator> as ec_core::operator::mutator::Mutator<G>>::mutate", "what": "Rng::random_bool",
          "reason": "random_bool panics only for p outside [0,1]: documented proviso (rates are probabilities)", "guard": None},
     ]
-    audit_panics(ctx, "R11.4", scope, discharge, floor=6)
+    audit_panics(ctx, "R11.4", scope, discharge, floor=3)
 
 
 def guard_infallible_closure(ctx, s):
